@@ -3,6 +3,7 @@ CONSTANTS
   MaxWorkers = 2
   Runtimes = {"threaded", "tokio"}
   MaxReq = 2
+  Kinds = {"close", "keep", "ws"}
   Dev = {}
 SPECIFICATION SpecAllFair
 INVARIANTS TypeOK
